@@ -40,7 +40,7 @@ class FuncInfo:
 
 @dataclass
 class ClassInfo:
-    name: str
+    name: str                # unique name used throughout the engine (== pyname unless another module defines the same name)
     path: str
     node: ast.ClassDef
     module: "ModuleInfo"
@@ -51,6 +51,7 @@ class ClassInfo:
     methods: dict[str, FuncInfo] = field(default_factory=dict)
     class_attrs: dict[str, ast.expr] = field(default_factory=dict)
     enum_members: list[tuple[str, ast.expr]] = field(default_factory=list)
+    pyname: str = ""
 
     @property
     def is_enum(self) -> bool:
@@ -65,6 +66,7 @@ class ModuleInfo:
     functions: dict[str, FuncInfo] = field(default_factory=dict)
     classes: dict[str, ClassInfo] = field(default_factory=dict)
     globals: dict[str, ast.expr] = field(default_factory=dict)
+    imports: dict[str, tuple] = field(default_factory=dict)   # local name -> (module dotted name, original name)
 
 
 def _decorator_names(node) -> list[str]:
@@ -148,10 +150,21 @@ class Repo:
                         else:
                             ci.class_attrs[nm] = st.value
                             ci.enum_members.append((nm, st.value))
+                ci.pyname = node.name
                 mod.classes[node.name] = ci
                 self._class_dups.setdefault(node.name, []).append(ci)
-                self.classes.setdefault(node.name, ci)
+                if node.name in self.classes and self.classes[node.name] is not ci:
+                    ci.name = f"{node.name}@{mod.path[:-3].replace('/', '.')}"
+                self.classes.setdefault(ci.name, ci)
                 self._scan(mod, node.body, prefix + node.name + ".", ci)
+            elif isinstance(node, ast.ImportFrom) and cls is None and prefix == "":
+                base = node.module or ""
+                if node.level:
+                    pkg = mod.path[:-3].replace("/", ".").split(".")
+                    pkg = pkg[:len(pkg) - node.level]
+                    base = ".".join(pkg + ([node.module] if node.module else []))
+                for a in node.names:
+                    mod.imports[a.asname or a.name] = (base, a.name)
             elif isinstance(node, ast.Assign) and len(node.targets) == 1 and isinstance(node.targets[0], ast.Name):
                 mod.globals[node.targets[0].id] = node.value
             elif isinstance(node, ast.AnnAssign) and isinstance(node.target, ast.Name) and node.value is not None:
@@ -178,6 +191,23 @@ class Repo:
         if qn not in mod.functions:
             raise Unsupported(f"sidecar out of date: function {key} not found in the tree")
         return mod.functions[qn]
+
+    def resolve_import(self, mod: ModuleInfo, name: str, depth=0):
+        """follow `from X import name` to the defining repository module: ('class', ClassInfo) / ('func', FuncInfo)"""
+        if name not in mod.imports or depth > 4:
+            return None
+        base, orig = mod.imports[name]
+        for cand in (base.replace(".", "/") + ".py", base.replace(".", "/") + "/__init__.py"):
+            if os.path.exists(os.path.join(self.root, cand)):
+                m2 = self.module(cand)
+                if orig in m2.classes:
+                    return ("class", m2.classes[orig])
+                if orig in m2.functions:
+                    return ("func", m2.functions[orig])
+                r = self.resolve_import(m2, orig, depth + 1)
+                if r is not None:
+                    return r
+        return None
 
     def cls(self, name: str, path: str | None = None) -> ClassInfo | None:
         if path is not None:
